@@ -680,6 +680,9 @@ class Body:
         if k == "agg":
             nm = rv.get("adt") or rv.get("def") or rv["agg"]
             return ('agg', nm, rv.get("variant"), tuple(self.term(o, pos, depth) for o in rv["ops"]))
+        if k == "repeat":
+            # [elem; N]: an array of known length
+            return ('agg', 'repeat', str(rv.get("count")), (self.term(rv["op"], pos, depth),))
         return ('unknown', rv.get("s", k))
 
     def call_term(self, t, pos, depth):
